@@ -4,6 +4,17 @@ import os
 import re
 
 VERIF = os.path.dirname(os.path.dirname(os.path.abspath(__file__)))
+# changes that are no longer (or never were) a breach of their property on the current tree
+STATUS = {
+    'C01-1': ('obsolete', 'the bracket helper it patched was removed by the precedence rewrite d89efb3'),
+    'C12-4': ('obsolete', '_regexp was rewritten by 66328f3'),
+    'C17-4': ('obsolete', 'the text forms it relied on were replaced by d001810'),
+    'C03-7': ('obsolete', 'its demonstration passes since e1c09b1 (the entry cell is re-read from the workbook)'),
+    'C06-10': ('obsolete', 'its demonstration passes since 79f5947 (every emitted expression is checked against python\'s bracket limit)'),
+    'C16-5': ('not-kept', 'demands more than the statement (1 ulp beyond 15 significant digits)'),
+    'C11-7': ('outside-asserted-domain', 'dates under AVERAGE: the statement does not say whether a date is a numeric cell'),
+    'C09-12': ('changed-by-fix', 'since 30a138b a cell that holds an object is rejected at translation: the change now makes workbooks with array formulas untranslatable (C18 / C06) instead of putting an address into the text'),
+}
 rows = []
 for sid in sorted(os.listdir(os.path.join(VERIF, 'seeded'))):
     d = os.path.join(VERIF, 'seeded', sid)
@@ -24,7 +35,7 @@ for sid in sorted(os.listdir(os.path.join(VERIF, 'seeded'))):
         'id': sid,
         'property': sid.split('-')[0],
         'wave': (int(sid.split('-')[1]) + 2) // 3,
-        'source': 'independent sub-agent (given only the property record and a scratch worktree of /repo)',
+        'source': 'independent sub-agent (given only the property record and a scratch worktree of /repo; from the second wave on also one-line summaries of the changes delivered before, so as not to repeat them)',
         'what': title,
         'needs_to_manifest': needs_text,
         'confirmed': {k: res.get(k) for k in ('applies', 'pinned_tests_pass', 'demo_fails_with_change', 'demo_passes_without', 'repo_head')},
@@ -33,8 +44,8 @@ for sid in sorted(os.listdir(os.path.join(VERIF, 'seeded'))):
         'caught_by': caught,
         'not_caught_by': missed,
         'check_errors': errors,
-        'status': old.get('status') or ('kept' if res.get('applies') and res.get('pinned_tests_pass') and res.get('demo_fails_with_change') and res.get('demo_passes_without') else 'not-confirmed'),
-        'comment': old.get('comment', ''),
+        'status': STATUS[sid][0] if sid in STATUS else old.get('status') if old.get('status') not in (None, 'not-confirmed') else ('kept' if res.get('applies') and res.get('pinned_tests_pass') and res.get('demo_fails_with_change') and res.get('demo_passes_without') else 'not-confirmed'),
+        'comment': STATUS[sid][1] if sid in STATUS else old.get('comment', ''),
     }
     json.dump(meta, open(os.path.join(d, 'meta.json'), 'w'), indent=1, ensure_ascii=False)
     rows.append(meta)
